@@ -81,7 +81,7 @@ SPEC = dict(
          "quick = all histories of depth <= 2 over the full alphabet. thorough = depth <= 3 (third call: the ref/old operand of insertBefore/replaceChild ranges over "
          "null, every child of the receiver, newChild, the receiver and one other node instead of all nodes) plus a fixpoint search (all reachable forests, no depth "
          "bound) over the node-creation-free structural sub-alphabet {appendChild, insertBefore, removeChild, replaceChild, adoptNode, setAttributeNode, "
-         "removeAttributeNode, setAttributeNodeNS} on the D1 nodes listed in bounds.active_nodes. Every discrepancy is classified into a kind "
+         "removeAttributeNode, setAttributeNodeNS} on two 7-node subsets of D1 (bounds.active_nodes: {doc,r,a,'x',b,f,e} and {doc,r,a,'x',k,f,e}; ref/old operands reduced as above). Every discrepancy is classified into a kind "
          "'<call>:<expected>:<observed>'; the minimal (shallowest, first in enumeration order) instance of every kind is reported as one violation. "
          "distinct_nontrivial = number of distinct states (forests) reached and compared.",
     trusted_base=["reference DOM drv/c13_ref.hpp (vector-of-children tree, DOM Level 3 Core semantics as restated in the public headers dom/DOMNode.hpp, DOMDocument.hpp, "
@@ -107,8 +107,9 @@ SPEC = dict(
     coverage=_coverage,
     runs=dict(
         quick=[_bfs("bfs-depth2-full", 2)],
-        thorough=[_bfs("bfs-depth3", 3, reduce_last=True, deadline=1020),
-                  _fix("fixpoint-structural", "0,1,2,3,4,8,9", 300)],
+        thorough=[_fix("fixpoint-structural-b", "0,1,2,3,4,8,9", 360),     # doc, r, a, 'x', b, f, e
+                  _fix("fixpoint-structural-k", "0,1,2,3,7,8,9", 180),     # doc, r, a, 'x', attribute k, f, e
+                  _bfs("bfs-depth3", 3, reduce_last=True, deadline=840)],
     ),
     manifest=dict(
         text="Every history of DOM Core calls up to the stated depth (and every reachable forest of the structural sub-alphabet) over the two-document universe was "
